@@ -224,6 +224,68 @@ Fixpoint run (c : cst) (ops : list op) : list result * cst :=
   | o :: r => let (x, c1) := step c o in let (xs, c2) := run c1 r in (x :: xs, c2)
   end.
 
+(* ------------------------------------------------------------------ the clock
+   ptt.computeUserExpireValue / checkAndExpireAccount for an account that is not exempt (PERM_XEMPT, guest, empty id
+   are [cleanable]'s business). [age] = NowTS() - LastLogin in seconds: NEGATIVE when the stored stamp is later than
+   the clock reads (the clock was stepped back after the login, or the stamp came from a host whose clock is ahead).
+   Go's int division truncates toward zero (Z.quot). [keep] = keep period in minutes: KEEP_DAYS_UNREGGED*24*60 for
+   the accounts of the harness (PERM_DEFAULT has neither PERM_LOGINOK nor PERM_VIOLATELAW). *)
+Definition KEEP_MIN_UNREGGED : Z := 15 * 24 * 60.
+Definition since_login_min (age : Z) : Z := Z.quot age 60.
+Definition expire_value (keep age : Z) : Z := keep - since_login_min age.
+(* checkAndExpireAccount kills the account: expireValue < 0 and -expireValue > CLEAN_USER_EXPIRE_RANGE_MIN *)
+Definition expired (keep age : Z) : bool :=
+  let v := expire_value keep age in (v <? 0) && (ptttype.CLEAN_USER_EXPIRE_RANGE_MIN <? - v).
+Definition EXPIRE_LIMIT_SEC : Z := (KEEP_MIN_UNREGGED + ptttype.CLEAN_USER_EXPIRE_RANGE_MIN) * 60.
+(* the last-login ages (seconds) the harness gives to initial accounts, by the code in their flags
+   (go/impl/cmd/implrun/c03.go c03Age is the same table) *)
+Definition age_of (code : Z) : Z :=
+  match code with
+  | 1 => 5 * 365 * 86400
+  | 2 => -5
+  | 3 => -3600
+  | 4 => -400 * 86400
+  | 5 => 14 * 86400
+  | 6 => EXPIRE_LIMIT_SEC - 2 * 86400
+  | 7 => EXPIRE_LIMIT_SEC + 2 * 86400
+  | _ => 0
+  end.
+(* the largest total the harness steps the clock back by within one history (operation 12) *)
+Definition MAX_CLOCK_BACK : Z := 86400.
+
+(* ------------------------------------------------------------------ the on-line table
+   ptt.getNewUtmpEnt: one entry per pid (the pid of a session is derived from the uid, so: per account); a login of an
+   account that has an entry re-uses it, another one takes a free entry, and when none of the USHM_SIZE entries is
+   free the login fails with ErrNewUtmp. Entries are not released by the account operations. The client address is
+   not an argument: where a login comes from does not matter. (The probing order of the real table does not matter
+   either: an entry is found iff it is there, a free one iff one is free.) *)
+Definition USHM : nat := Z.to_nat ptttype.USHM_SIZE.
+Definition utmp_take (size : nat) (ut : list Z) (pid : Z) : option (list Z) :=
+  if existsb (Z.eqb pid) ut then Some ut
+  else if (length ut <? size)%nat then Some (pid :: ut) else None.
+Fixpoint utmp_run (size : nat) (ut : list Z) (pids : list Z) : option (list Z) :=
+  match pids with
+  | [] => Some ut
+  | p :: r => match utmp_take size ut p with Some ut' => utmp_run size ut' r | None => None end
+  end.
+Definition E_UTMP : Z := 7.        (* ptt.ErrNewUtmp *)
+(* userLogin at the end of Login and of Register: Login fails before anything was written (the last-login stamp is
+   saved after the entry was taken), Register fails after the account was written *)
+Definition with_utmp (layer : Z) (c : cst) (ut : list Z) (o : op) (x : result) (c1 : cst) : result * cst * list Z :=
+  let go (n : list Z) (back : cst) :=
+    match lookup (slots c1) (cid n) with
+    | Some k => match utmp_take USHM ut (Z.of_nat (S k)) with
+                | Some ut' => (x, c1, ut')
+                | None => (RErr (if layer =? 0 then E_UTMP else E_API), back, ut)
+                end
+    | None => (x, c1, ut)
+    end in
+  match o, x with
+  | ORegister n _ _, ROk _ => go n c1
+  | OLogin n _, ROk _ => go n c
+  | _, _ => (x, c1, ut)
+  end.
+
 (* ------------------------------------------------------------------ wire *)
 Fixpoint dec_strs (fuel : nat) (l : list Z) : list (list Z) :=
   match fuel with
@@ -235,14 +297,14 @@ Fixpoint dec_strs (fuel : nat) (l : list Z) : list (list Z) :=
   end.
 Definition strs (l : list Z) : list (list Z) := dec_strs (length l) l.
 
-(* initial accounts: four strings per slot — id, password (empty = no usable hash), e-mail, flags [old; xempt] *)
+(* initial accounts: four strings per slot — id, password (empty = no usable hash), e-mail, flags [age code; xempt] *)
 Fixpoint mk_slots (fuel : nat) (l : list (list Z)) : list acct :=
   match fuel with
   | O => []
   | S f => match l with
            | id :: pw :: em :: fl :: r =>
                mkAcct id (gen pw) em
-                      (negb (nth 0 fl 0 =? 0)) (negb (nth 1 fl 0 =? 0)) :: mk_slots f r
+                      (expired KEEP_MIN_UNREGGED (age_of (nth 0 fl 0))) (negb (nth 1 fl 0 =? 0)) :: mk_slots f r
            | _ => []
            end
   end.
@@ -259,6 +321,8 @@ Definition parse_op (g : list Z) : option op :=
       | 6, [n] => Some (OExists n)
       | 7, [n] => Some (OGetUser n)
       | 8, [] => Some OHour
+      | 10, [n; p; _] => Some (OLogin n p)              (* login from a client address: the address decides nothing *)
+      | 11, [n; p; e; _] => Some (ORegister n p e)      (* registration from a client address *)
       | _, _ => None
       end
   | [] => None
@@ -282,15 +346,20 @@ Definition observe (pwpool idpool : list (list Z)) (c : cst) : list Z :=
   flat_map (fun a => enc_str (a_id a) ++ [mask pwpool (a_pw a)] ++ enc_str (a_email a)) (slots c)
   ++ map (fun n => match lookup (slots c) (cid n) with Some k => Z.of_nat (S k) | None => 0 end) idpool.
 
-Fixpoint run_wire (layer : Z) (pwpool idpool : list (list Z)) (c : cst) (gs : list (list Z)) : list Z :=
+(* [12; d]: the host clock is stepped back by d seconds (0 <= d, at most MAX_CLOCK_BACK in total per history). Every
+   age shrinks by d. The table does not change: an account that is not expired stays so (Props: C03_clock_back_keeps_unexpired),
+   the ages the harness uses are further than MAX_CLOCK_BACK from the limit, and .fresh only gets younger. *)
+Fixpoint run_wire (layer : Z) (pwpool idpool : list (list Z)) (c : cst) (ut : list Z) (gs : list (list Z)) : list Z :=
   match gs with
   | [] => []
+  | [12; d] :: r => [-1] ++ enc_result (ROk []) ++ observe pwpool idpool c ++ run_wire layer pwpool idpool c ut r
   | g :: r =>
       match parse_op g with
       | None => [-9]
       | Some o =>
-          let (x, c1) := if layer =? 0 then step c o else api_step c o in
-          [-1] ++ enc_result x ++ observe pwpool idpool c1 ++ run_wire layer pwpool idpool c1 r
+          let (x0, c0) := if layer =? 0 then step c o else api_step c o in
+          let '(x, c1, ut1) := with_utmp layer c ut o x0 c0 in
+          [-1] ++ enc_result x ++ observe pwpool idpool c1 ++ run_wire layer pwpool idpool c1 ut1 r
       end
   end.
 
@@ -364,7 +433,7 @@ Definition run_case (args : list (list Z)) : list Z :=
   | [1] :: [layer; thr] :: pwpool :: idpool :: resv :: init :: gs =>
       let n := Z.to_nat ptttype.MAX_USERS in
       let sl := firstn n (mk_slots n (strs init) ++ repeat no_acct n) in
-      ST_OK :: run_wire layer (strs pwpool) (strs idpool) (mkC sl (strs resv) (negb (thr =? 0))) gs
+      ST_OK :: run_wire layer (strs pwpool) (strs idpool) (mkC sl (strs resv) (negb (thr =? 0))) [] gs
   | [2] :: [layer; thr] :: pwpool :: idpool :: resv :: (n :: pos) :: init :: gs =>
       let sl := place pos (mk_slots (length pos) (strs init)) (repeat no_acct (Z.to_nat n)) in
       let c := mkC sl (strs resv) (negb (thr =? 0)) in
